@@ -919,6 +919,20 @@ def fam_attr_pairs():
   return _fam("F-attr-pairs", prod.n, decode, "two subtitles: (VP, rows) x (VP, rows) x JC x display standard")
 
 
+def fam_attr_pairs_fine():
+  """open subtitles on a fine row grid (99 rows: one row is less than 1 % of the height): two subtitles whose vertical
+  positions differ by one row must not share a region"""
+  shapes = [(3, 1), (4, 1), (5, 1), (50, 2), (51, 2), (65, 1), (66, 1), (98, 1), (99, 1)]
+  prod = Product([shapes, shapes, [99, "MNR"]])
+
+  def decode(i):
+    (vp1, n1), (vp2, n2), mrc = prod.decode(i)
+    ttis = [{"sn": 1, "jc": 2, "vp": vp1, "tf": LINES[(n1, False)], "tci": [0, 0, 1, 0], "tco": [0, 0, 2, 0]},
+            {"sn": 2, "jc": 2, "vp": vp2, "tf": LINES[(n2, False)], "tci": [0, 0, 3, 0], "tco": [0, 0, 4, 0]}]
+    return {"focus": "attr", "gsi": {"dsc": b"0", "mnr": 99}, "ttis": ttis, "config": {"max_row_count": mrc}, "nt": True}
+  return _fam("F-attr-pairs-fine", prod.n, decode, "two open subtitles on a 99-row grid: (VP, rows) x (VP, rows) incl. neighbouring rows x row count from configuration / MNR")
+
+
 def fam_dropped_chain():
   """a subtitle made of an extension chain that is dropped (starts before the programme start, or TCO < TCI), followed by
   ordinary subtitles: nothing of the dropped one may leak into the following ones"""
@@ -1107,6 +1121,7 @@ def plan(tier, seed):
   fams.append(fam_charset_pairs())
   fams.append(fam_attr())
   fams.append(fam_attr_pairs())
+  fams.append(fam_attr_pairs_fine())
   fams.append(fam_dropped_chain())
   for dfc in DFCS:
     fams.append(fam_time(dfc))
